@@ -33,6 +33,9 @@ var relations = []relation{
 	{name: "new"},
 	{name: "existing-0600", mode: 0o600},
 	{name: "existing-0640", mode: 0o640},
+	// permission bits a creation mode would lose to the usual umask 022 (only fchmod keeps them)
+	{name: "existing-0664", mode: 0o664},
+	{name: "existing-0666", mode: 0o666},
 	{name: "existing-0755", mode: 0o755},
 	{name: "inplace-empty-out", alias: true},
 	{name: "inplace-mode-0600", alias: true, mode: 0o600},
@@ -98,6 +101,7 @@ func items() []item {
 func main() {
 	vk.Run("C03", "exploration", func(t *vk.T) {
 		api.DisableConfigDir()
+		syscall.Umask(0o022) // the usual umask, set explicitly: mode preservation must not depend on the caller's
 		if !t.IsShard() {
 			t.Rule("case = (operation, input/output path relation); each case runs the real API call twice (reference run onto a fresh path, run under the relation) with the filesystem interposer tracing; non-trivial = every case whose run succeeded (outputs compared, modes compared, trace checked); distinct by (op, relation)")
 			t.Assume("output equivalence between two runs: both validate with pdfcpu, same page count, byte-equal after masking /ID and dates or sizes within 256 bytes when object streams/encryption make bytes run-dependent (an independent structural comparison is the subject of C18/C19)")
@@ -188,7 +192,7 @@ func runItem(t *vk.T, fx string, it item) {
 
 	root := filepath.Join(t.Scratch(), "sb")
 	c := setup(fx, root, op)
-	dest := ""   // path (as named) that must hold the result
+	dest := "" // path (as named) that must hold the result
 	var restoreCwd string
 	switch r.name {
 	case "new":
@@ -199,7 +203,7 @@ func runItem(t *vk.T, fx string, it item) {
 			c.Out = filepath.Join(root, op.OutName)
 			dest = c.Out
 		}
-	case "existing-0600", "existing-0640", "existing-0755":
+	case "existing-0600", "existing-0640", "existing-0664", "existing-0666", "existing-0755":
 		c.Out = filepath.Join(root, op.OutName)
 		if strings.HasSuffix(op.OutName, ".pdf") {
 			cp(filepath.Join(fx, opcat.FxOne), c.Out, r.mode)
